@@ -4,10 +4,10 @@
 P=/tmp/ev/probe; patch="$1"; shift
 mkdir -p $P
 if [ ! -d $P/repo ]; then git -C /repo worktree add --detach $P/repo HEAD -q; cp /repo/Cargo.lock $P/repo/; fi
-git -C $P/repo checkout -q -- . ; git -C $P/repo checkout -q --detach $(git -C /repo rev-parse HEAD)
+git -C $P/repo checkout -q -- . ; git -C $P/repo clean -fdq src; git -C $P/repo checkout -q --detach ${PROBE_BASE:-$(git -C /repo rev-parse HEAD)}
 rsync -a --delete --exclude target --exclude 'target-*' --exclude out --exclude .git --exclude seeded --exclude shadow /verif/ $P/verif/
 mkdir -p $P/verif/out
-[ "$patch" != "-" ] && { git -C $P/repo apply "$patch" || exit 2; }
+[ "$patch" != "-" ] && { git -C $P/repo apply "$patch" 2>/dev/null || (cd $P/repo && patch -p1 -F3 -s < "$patch") || exit 2; }
 export VERIF_REPO=$P/repo
 for c in "$@"; do
   (cd $P/verif && ./check $c ${PROBE_TIER:-quick} 2>&1 | grep -E "^(summary|violation|VIOLATION|HARNESS)" | cut -c1-${PROBE_COLS:-300} | head -${PROBE_LINES:-6})
